@@ -9,6 +9,7 @@ inp['out']=d+'/out.json'; inp['cert_dir']='/verif/certs'
 json.dump(inp,open(d+'/in.json','w'))
 bins=sorted(glob.glob('/verif/.build-cache/*/harness.test'),key=os.path.getmtime)
 env={'VERIF_RUN':d+'/in.json','GOMAXPROCS':'1','GOGC':'off','GODEBUG':'asyncpreemptoff=1,randautoseed=0','PATH':'/usr/bin:/bin','HOME':'/tmp'}
+if os.environ.get('VERIF_TRACE_G'): env['VERIF_TRACE_G']='1'
 p=subprocess.run([bins[-1],'-test.run','^TestRun$','-test.timeout','0'],env=env,capture_output=True,text=True,cwd=d,timeout=600)
 if not os.path.exists(d+'/out.json'):
     print(p.stderr[-6000:]); sys.exit(1)
